@@ -424,6 +424,15 @@ pub fn replay(case: &Value) -> Result<String, String> {
             run_fronts(&kvs, &[(3, 3)]).map(|n| format!("{} builds byte-identical", n))
         }
         "bulk" => run_bulk(case["n"].as_u64().unwrap() as usize, case["set"].as_bool().unwrap()).map(|n| format!("{} builds byte-identical", n)),
+        "fronts-ladder" => {
+            let l = case["len"].as_u64().unwrap() as usize;
+            let fam = long_keys_of(&[l]);
+            let mut n = 0;
+            for (_, kvs) in fam {
+                n += run_fronts(&kvs, &[(2, 2)])?;
+            }
+            Ok(format!("{} builds byte-identical", n))
+        }
         "fronts-corpus" => {
             let kvs = corpus_sample(case["name"].as_str().unwrap(), case["take"].as_u64().unwrap() as usize, case["set"].as_bool().unwrap())?;
             run_fronts(&kvs, &[]).map(|n| format!("{} builds byte-identical", n))
@@ -557,6 +566,16 @@ pub fn plan(tier: Tier) -> Plan {
                 }
             }));
         }
+    }
+    for part in 0..16usize {
+        p.units.push(unit("key-length-ladder-all-front-ends-(finite-family)", format!("length ladder part {}", part), move |st, rep| {
+            for (_, kvs) in key_length_ladder(part, 16) {
+                let l = kvs.iter().map(|x| x.0.len()).max().unwrap();
+                if l > 1101 && l < 60_000 { continue; }
+                st.nontrivial += 1;
+                do_fronts_case(&kvs, &[(2, 2)], json!({"kind": "fronts-ladder", "len": l - 1}), st, rep);
+            }
+        }));
     }
     // inputs large enough to put the DEFAULT cache under pressure (evictions
     // decide the bytes there): every front end must still agree
